@@ -7,12 +7,15 @@ Import ListNotations.
 From C14 Require Import Gen.
 
 Section Todecsci.
-  Variable F : Type.                       (* finite floats of one format *)
+  Variable F : Type.                       (* floats of one format *)
   Variable text : Type.
   Variable fmt : Z -> F -> text.           (* %.<n>g *)
-  Variable rd : text -> F.                 (* correctly rounded reading *)
-  Variable feq : F -> F -> bool.           (* tonumber(s) ~= v  test of the code, negated *)
-  Hypothesis feq_spec : forall a b, feq a b = true <-> a = b.
+  Variable rd : text -> F.                 (* tonumber *)
+  (* Lua's == on numbers, the test of the code (tonumber(s) ~= v, negated): NOT bit identity - it identifies
+     -0.0 with 0.0 (and with the integer 0 that tonumber('-0') returns) and never holds on a NaN *)
+  Variable eqv : F -> F -> Prop.
+  Variable feq : F -> F -> bool.
+  Hypothesis feq_spec : forall a b, feq a b = true <-> eqv a b.
 
   (* bn.todecsci for decimaldigits >= 16: the ladder of digit counts scraped into TODECSCI_DIGITS *)
   Fixpoint ladder (ds : list Z) (last : Z) (v : F) : text :=
@@ -23,23 +26,25 @@ Section Todecsci.
   Definition todecsci64 (v : F) : text :=
     ladder (removelast TODECSCI_DIGITS) (last TODECSCI_DIGITS 17%Z) v.
 
-  (* the classical fact, assumed: 17 significant digits identify a binary64 *)
-  Hypothesis roundtrip17 : forall v, rd (fmt 17 v) = v.
+  (* the classical fact, assumed, for the values [dom] it is claimed of (the finite ones): 17 significant digits
+     read back as a number == to the original *)
+  Variable dom : F -> Prop.
+  Hypothesis roundtrip17 : forall v, dom v -> eqv (rd (fmt 17 v)) v.
 
-  Lemma ladder_reads_back ds v : rd (ladder ds 17%Z v) = v.
+  Lemma ladder_reads_back ds v : dom v -> eqv (rd (ladder ds 17%Z v)) v.
   Proof.
-    induction ds as [|d r IH]; cbn [ladder]; [apply roundtrip17|].
+    intros Hd. induction ds as [|d r IH]; cbn [ladder]; [apply roundtrip17; exact Hd|].
     destruct (feq (rd (fmt d v)) v) eqn:E; [apply feq_spec; exact E|exact IH].
   Qed.
 
-  Theorem todecsci_reads_back v : rd (todecsci64 v) = v.
+  Theorem todecsci_reads_back v : dom v -> eqv (rd (todecsci64 v)) v.
   Proof. unfold todecsci64. change (last TODECSCI_DIGITS 17%Z) with 17%Z. apply ladder_reads_back. Qed.
 
-  (* ... and it is the FIRST rung of the ladder that reads back *)
+  (* ... and it is the FIRST rung of the ladder that reads back (no assumption on the floats is needed here) *)
   Theorem todecsci_first v :
-    (rd (fmt 15%Z v) = v -> todecsci64 v = fmt 15%Z v) /\
-    (rd (fmt 15%Z v) <> v -> rd (fmt 16%Z v) = v -> todecsci64 v = fmt 16%Z v) /\
-    (rd (fmt 15%Z v) <> v -> rd (fmt 16%Z v) <> v -> todecsci64 v = fmt 17%Z v).
+    (eqv (rd (fmt 15%Z v)) v -> todecsci64 v = fmt 15%Z v) /\
+    (~ eqv (rd (fmt 15%Z v)) v -> eqv (rd (fmt 16%Z v)) v -> todecsci64 v = fmt 16%Z v) /\
+    (~ eqv (rd (fmt 15%Z v)) v -> ~ eqv (rd (fmt 16%Z v)) v -> todecsci64 v = fmt 17%Z v).
   Proof.
     unfold todecsci64. change (removelast TODECSCI_DIGITS) with [15%Z; 16%Z].
     change (last TODECSCI_DIGITS 17%Z) with 17%Z. cbn [ladder].
@@ -51,6 +56,33 @@ Section Todecsci.
       destruct (feq (rd (fmt 16%Z v)) v) eqn:E16; [apply feq_spec in E16; contradiction|]. reflexivity.
   Qed.
 End Todecsci.
+
+(* The premises are satisfiable on a type with two zeros and a NaN, which bit identity would not allow: a toy
+   format (zeros, one NaN, nonzero numbers) whose reader loses the sign of zero, as tonumber('-0') does. *)
+Module ToyInstance.
+  Inductive tf := PZero | NZero | NaN | Num (q : Z).
+  Definition teqv (a b : tf) : Prop :=
+    match a, b with
+    | (PZero | NZero), (PZero | NZero) => True
+    | Num x, Num y => x = y
+    | _, _ => False
+    end.
+  Definition tfeq (a b : tf) : bool :=
+    match a, b with
+    | (PZero | NZero), (PZero | NZero) => true
+    | Num x, Num y => Z.eqb x y
+    | _, _ => false
+    end.
+  Definition tfmt (_ : Z) (v : tf) : tf := v.
+  Definition trd (t : tf) : tf := match t with NZero => PZero | x => x end.
+  Definition tdom (v : tf) : Prop := v <> NaN.
+  Lemma tfeq_spec a b : tfeq a b = true <-> teqv a b.
+  Proof. destruct a, b; cbn; try tauto; try (split; [discriminate|tauto]). apply Z.eqb_eq. Qed.
+  Lemma troundtrip v : tdom v -> teqv (trd (tfmt 17 v)) v.
+  Proof. destruct v; cbn; try tauto. intros H. apply H. reflexivity. Qed.
+  Lemma toy_reads_back v : tdom v -> teqv (trd (todecsci64 tf tf tfmt trd tfeq v)) v.
+  Proof. apply (todecsci_reads_back tf tf tfmt trd teqv tfeq tfeq_spec tdom troundtrip). Qed.
+End ToyInstance.
 
 (* ---- the ".0" rules ---- *)
 From C14 Require Import Model.
